@@ -577,9 +577,11 @@ pub fn unspecified_destination(r: &mut Report, seed: u64) {
     // the third party: its own IP on another port, its own IP on port P, or a process on the node's own host
     // (loopback) on another port. A request sent to 0.0.0.0:P is delivered to port P of the sending host, so
     // only loopback:P is "the address the request was sent to".
-    let spoofer = rng.usize(3);
-    let same_port = spoofer == 1;
-    let spoofer_name = ["other-ip-other-port", "other-ip-same-port", "loopback-other-port"][spoofer];
+    // a fourth kind: the contact is listed at 127.0.0.1:P (this host) and the third party sits on ANOTHER loopback
+    // address, port P
+    let spoofer = rng.usize(4);
+    let same_port = spoofer == 1 || spoofer == 3;
+    let spoofer_name = ["other-ip-other-port", "other-ip-same-port", "loopback-other-port", "loopback-destination/other-loopback-ip-same-port"][spoofer];
     let call = rng.usize(3);
     let rp = 4000 + rng.usize(1000) as u16;
     let p_port: u16 = *rng.pick(&[6881u16, 1, 65535, rp]);
@@ -591,7 +593,7 @@ pub fn unspecified_destination(r: &mut Report, seed: u64) {
     let target: [u8; 20] = rng.array();
     let mut ghost_id = target;
     ghost_id[19] ^= 1;
-    let ghost = SocketAddrV4::new(Ipv4Addr::UNSPECIFIED, p_port);
+    let ghost = SocketAddrV4::new(if spoofer == 3 { Ipv4Addr::LOCALHOST } else { Ipv4Addr::UNSPECIFIED }, p_port);
     w.set_responder(Some(Box::new(move |w, sock, d| {
         if sock != h {
             return false;
@@ -628,7 +630,7 @@ pub fn unspecified_destination(r: &mut Report, seed: u64) {
         }
         None
     })));
-    let z_ip = if spoofer == 2 { Ipv4Addr::LOCALHOST } else { Ipv4Addr::new(99, 9, 9, 9) };
+    let z_ip = match spoofer { 2 => Ipv4Addr::LOCALHOST, 3 => Ipv4Addr::new(127, 0, 0, 2), _ => Ipv4Addr::new(99, 9, 9, 9) };
     let z_addr = SocketAddrV4::new(z_ip, if same_port { p_port } else if p_port == 7777 { 7778 } else { 7777 });
     let z = w.raw(z_addr);
     let a = x.adht.clone();
@@ -681,7 +683,7 @@ pub fn unspecified_destination(r: &mut Report, seed: u64) {
     }
     let snap = snapshot(&w, &x);
     w.set_fault(None);
-    let kind = ["other-ip-other-port", "other-ip-same-port", "loopback-other-port"][spoofer];
+    let kind = spoofer_name;
     let fail = |r: &mut Report, what: &str, text: &str| r.violation(&format!("effect/unspecified-destination/{kind}/{what}"), text, case.clone(), json!({"injected": injected}));
     if injected == 0 {
         r.count("unspecified_destination/request-to-0.0.0.0-never-seen");
